@@ -15,7 +15,7 @@ import CpProofs.Opp
                     consistent and carries the same information);
     * `…_framing`   for the stream framing units: consumed ≤ available, > 0, self-delimiting, every
                     proper prefix rejected with a missing-byte count between 1 and the truth.
-  Three clauses are FALSE of the code as it stands; each is kept at full strength as a `def …_full`,
+  Two clauses are FALSE of the code as it stands (known findings `cotp-ref-order`, `rdp-zero-flag`); each is kept at full strength as a `def …_full`,
   refuted with a concrete witness, and accompanied by the strongest true `_partial`.
   LDAP StartTLS is outside the model (asn1crypto); its two encodings are specification constants
   compared with the implementation by the correspondence check.
@@ -165,22 +165,22 @@ theorem mysql_handshakeV10_spec (x : Spec.Opp.MySqlHandshakeV10) (s : Bytes) (h 
     decodeMySqlHandshakeV10 (encodeMySqlHandshakeV10 x ++ s) = some (x, (encodeMySqlHandshakeV10 x).length) :=
   mySqlHandshakeV10_spec_roundtrip x s h
 
-/-- Null-terminated strings, full statement: every ASCII text the composer accepts comes back.
-False: the composer does not reject an embedded NUL and the parser stops at it. -/
-def strNul_roundtrip_full : Prop :=
-  ∀ (v b : Bytes), composeStrNul v = .ok b → parseStrNul b = .ok (v, b.length)
+/-- Null-terminated strings: every text the composer accepts comes back, with exactly the composed
+octets consumed, whatever follows. -/
+theorem strNul_roundtrip (v b s : Bytes) (h : composeStrNul v = .ok b) :
+    parseStrNul (b ++ s) = .ok (v, b.length) := by
+  obtain ⟨ha, h0, hb⟩ := composeStrNul_ok_inv h
+  subst hb
+  rw [(Cp.Opp.strNul_roundtrip v s ha h0).2]
+  simp
 
-theorem strNul_roundtrip_full_fails : ¬ strNul_roundtrip_full := by
-  intro h
-  have h1 : composeStrNul [0x35, 0x00, 0x37] = .ok [0x35, 0x00, 0x37, 0x00] := by decide
-  have h2 := h _ _ h1
-  have h3 : parseStrNul [0x35, 0x00, 0x37, 0x00] = .ok ([0x35], 2) := by decide
-  rw [h3] at h2
-  exact absurd h2 (by decide)
+/-- a text with an embedded NUL is rejected by the composer (it used to be written as it was) -/
+theorem strNul_rejects_nul (v : Bytes) (h0 : (0 : UInt8) ∈ v) : composeStrNul v = .error .invalidValue :=
+  composeStrNul_nul v h0
 
-theorem strNul_roundtrip_partial (v s : Bytes) (ha : isAscii v = true) (h0 : (0 : UInt8) ∉ v) :
-    composeStrNul v = .ok (v ++ [0]) ∧ parseStrNul (v ++ [0] ++ s) = .ok (v, v.length + 1) :=
-  strNul_roundtrip v s ha h0
+/-- and an ASCII text without NUL is accepted: the text followed by `00` -/
+theorem strNul_layout (v : Bytes) (ha : isAscii v = true) (h0 : (0 : UInt8) ∉ v) :
+    composeStrNul v = .ok (v ++ [0]) := composeStrNul_ok v ha h0
 
 /-! ### X.224 connection request / confirm -/
 
@@ -204,25 +204,10 @@ theorem cotp_layout_partial (c : Cotp) (h : cotpWf c) :
   unfold Cotp.toSpec Cotp.toSpecSwapped
   rw [e]
 
-/-- Type preservation, full statement: a connection PDU parsed by its own class comes back with its
-class.  False: `COTPConnectionBase._parse` builds a `COTPConnectionRequest` whatever the class. -/
-def cotp_type_preserved_full : Prop :=
-  ∀ (c : Cotp) (b : Bytes), cotpWf c → composeCotp c = .ok b → parseCotp c.cls b = .ok (c, b.length)
-
-theorem cotp_type_preserved_full_fails : ¬ cotp_type_preserved_full := by
-  intro h
-  have h1 : composeCotp ⟨.confirm, 1, 2, 0, [0x61]⟩ = .ok [0x07, 0xd0, 0x00, 0x01, 0x00, 0x02, 0x00, 0x61] := by decide
-  have h2 := h _ _ ⟨by decide, by decide, rfl, by decide⟩ h1
-  have h3 : parseCotp .confirm [0x07, 0xd0, 0x00, 0x01, 0x00, 0x02, 0x00, 0x61] =
-      .ok (⟨.request, 1, 2, 0, [0x61]⟩, 8) := by decide
-  rw [h3] at h2
-  exact absurd h2 (by decide)
-
-/-- What does hold: every field is recovered and exactly the encoding is consumed, but the class of
-the result is `COTPConnectionRequest` — so a request round-trips, a confirm comes back as a request. -/
-theorem cotp_roundtrip_partial (c : Cotp) (h : cotpWf c) (s : Bytes) :
-    ∃ b, composeCotp c = .ok b ∧
-      parseCotp c.cls (b ++ s) = .ok ({ c with cls := .request }, b.length) := by
+/-- Type preservation: a connection PDU parsed by its own class comes back with its class and every
+field, exactly the encoding is consumed, whatever follows it. -/
+theorem cotp_type_preserved (c : Cotp) (h : cotpWf c) (s : Bytes) :
+    ∃ b, composeCotp c = .ok b ∧ parseCotp c.cls (b ++ s) = .ok (c, b.length) := by
   refine ⟨_, composeCotp_swapped c h, ?_⟩
   obtain ⟨hs, hd, ho, hl⟩ := h
   have := parseCotp_encode c.toSpecSwapped c.cls s rfl ⟨hs, hd, hl⟩
@@ -232,9 +217,14 @@ theorem cotp_roundtrip_partial (c : Cotp) (h : cotpWf c) (s : Bytes) :
   subst ho
   rfl
 
-/-- no parse of either class ever returns an object tagged `COTPConnectionConfirm` -/
-theorem cotp_parse_never_confirm (want : CotpClass) (bs : Bytes) (c : Cotp) (n : Nat)
-    (h : parseCotp want bs = .ok (c, n)) : c.cls = .request := parseCotp_tag want bs c n h
+/-- the class of a parsed connection PDU is the class the parser was called on … -/
+theorem cotp_type_on_wire (want : CotpClass) (bs : Bytes) (c : Cotp) (n : Nat)
+    (h : parseCotp want bs = .ok (c, n)) : c.cls = want := parseCotp_tag want bs c n h
+
+/-- … and a PDU whose type code is the other class's is refused with `InvalidType`: a confirm is
+never returned as a request, nor a request as a confirm. -/
+theorem cotp_other_class_rejected (x : X224Connection) (want : CotpClass) (s : Bytes) (hk : want.kind ≠ x.kind)
+    (h : x.wf) : parseCotp want (encodeX224 x ++ s) = .error .invalidType := parseCotp_other x want s hk h
 
 theorem x224_spec (x : X224Connection) (s : Bytes) (h : x.wf) :
     decodeX224 (encodeX224 x ++ s) = some (x, (encodeX224 x).length) := x224_spec_roundtrip x s h
@@ -364,9 +354,11 @@ example : parseMySqlRecord [3, 0, 0, 1, 0x78, 0x78, 0x78, 7] = .ok (⟨1, [0x78,
 example : cotpWf ⟨.confirm, 1, 2, 0, [0x61]⟩ := ⟨by decide, by decide, rfl, by decide⟩
 example : composeCotp ⟨.request, 0x0102, 0x0304, 0, [9]⟩ = .ok [7, 0xe0, 1, 2, 3, 4, 0, 9] := by decide
 example : encodeX224 ⟨.cr, 0x0102, 0x0304, [9]⟩ = [7, 0xe0, 1, 2, 3, 4, 0, 9] := by decide
--- a confirm is refused by the request class (`InvalidType`) and accepted — as a request — by its own
+-- a confirm is refused by the request class (`InvalidType`) and accepted, as a confirm, by its own
 example : parseCotp .request [0x07, 0xd0, 0, 1, 0, 2, 0, 0x61] = .error .invalidType := by decide
-example : parseCotp .confirm [0x07, 0xd0, 0, 1, 0, 2, 0, 0x61] = .ok (⟨.request, 1, 2, 0, [0x61]⟩, 8) := by decide
+example : parseCotp .confirm [0x07, 0xd0, 0, 1, 0, 2, 0, 0x61] = .ok (⟨.confirm, 1, 2, 0, [0x61]⟩, 8) := by decide
+example : composeStrNul [0x35, 0x00, 0x37] = .error .invalidValue := by decide
+example : composeStrNul [0x35, 0x2e, 0x37] = .ok [0x35, 0x2e, 0x37, 0x00] := by decide
 
 example : rdpNegWf ⟨.response, [2 ^ 0, 2 ^ 3], [2 ^ 1]⟩ :=
   ⟨[0, 3], [1], by decide, by decide, rfl, rfl⟩
